@@ -1,5 +1,5 @@
 SPECIFICATION Spec
 CONSTANTS Callers = {1, 2}  MaxGen = 3  MaxCalls = 4  MaxKill = 2  ReconnectWhenNil = TRUE  ClosedCheckLocked = TRUE
-  CloseDropped = FALSE  CheckClosedFlag = TRUE  LimitIsRecoverable = TRUE  GenHist = FALSE
+  DropOnlyOwn = TRUE  CloseDropped = FALSE  CheckClosedFlag = TRUE  LimitIsRecoverable = TRUE  GenHist = FALSE
 INVARIANT NoViolation
 CHECK_DEADLOCK FALSE
